@@ -186,6 +186,20 @@ def name_space(rng, names, tier, full):
     return items
 
 
+def pair_space(rng, names, tier):
+    """two calls on one page, every ordered pair of registered names: the first without arguments (or with one), the second
+    with one - the dispatcher and the resolver object live for the whole expansion, so a call can disturb a later one."""
+    plain = sorted({n for lang, n in names if lang == "en"} or {n for _, n in names})
+    items = []
+    for a in plain:
+        for b in plain:
+            seconds = ["{{%s:x}}", "{{%s}}", "{{%s|x}}"]
+            for first in ("{{%s}}" % a, "{{%s:Foo}}" % a):
+                for second in (seconds if tier == "thorough" else [rng.choice(seconds)]):
+                    items.append(("en", first + " " + second % b))
+    return items
+
+
 def expr_space(rng, tier):
     from mwlib.parser import expr
 
@@ -485,6 +499,7 @@ def run(chk: common.Check):
     items += name_space(rng, aliases if tier == "thorough" else rng.sample(aliases, min(len(aliases), 400)), tier, full=False)
     eitems, ops = expr_space(rng, tier)
     items += eitems
+    items += pair_space(rng, names, tier)
     items += time_space()
     fz = fuzz_space(rng, 60000 if tier == "thorough" else 6000, names)
     items += fz
